@@ -109,7 +109,11 @@ META["C03"] = dict(
          "key), C03_removed_flushed_stays_absent, C03_flushed_unchanged_survives, C03_image_zero/_full, "
          "C03_recovered_store_keeps_working_partial (the recovered store refines the map again from a mixture of the durable and the "
          "current contents, for every continuation; its invariants allow it to crash and recover again; the only weakening is a factor "
-         "2 in the byte budget premise). Partial with respect to the statement: crashes inside Close, GC, open and upgrade steps are "
+         "2 in the byte budget premise); C03_close_crash_recovers / _against_map / _keeps_working_partial / C03_close_images_recover "
+         "over Sth/Model/CrashImageClose.lean (every crash image of Store.Close: flush images of primary+index, snapshot absent or "
+         "present, freelist append images - with the snapshot present every key reads the NEW value) and C03_snapshot_needs_complete_index "
+         "(decide witness that the order index flush before snapshot rename is load-bearing). Partial with respect to the statement: "
+         "crashes inside GC, open and upgrade steps are "
          "covered by the crash engine (images at ~100 hook points recovered by the real code and by the model), not by theorems; known findings "
          "D11, D12 are excluded by decidable recognisers on the image/history.",
     note=SEQ_NOTE + " Process-crash semantics: bytes reach files in order; rename/unlink/truncate/4-byte pwrite atomic. Hook completeness "
@@ -196,8 +200,9 @@ META["C07"] = dict(
          "its own complete non-deleted record list above the header's first file; prefixes sorted, prefix-free, locations distinct; "
          "every entry names a complete non-deleted primary record of the recorded size whose key falls in the bucket and extends the "
          "prefix; freelist disjoint from live), negative witnesses on concrete corruptions (the checker is not vacuous). Partial: "
-         "histories with GC cycles are covered by the evaluation on real bytes, by theorem once C04 lands (the invariant CInv is "
-         "structured for that).",
+         "C07_fsck_clean_igc / C07_recovered_table_igc / C07_reopen_igc / C07_after_igc extend all of this to histories WITH index GC "
+         "cycles (complete or cut at any poll); histories with primary GC cycles are covered by the evaluation on real bytes (theorem "
+         "in progress: known finding D11 restricts it to cycles that start with a clean index pool).",
     note=SEQ_NOTE,
 )
 META["C17"] = dict(
